@@ -97,6 +97,9 @@ HARNESSES = [
       fns=["decode_huffman_code", "HuffmanTable::fast_lookup", "HuffmanTable::tree_lookup", "read_byte", "read_u16_le", "end_of_input"],
       strength="B(one well-formed table instance with 1..12-bit codes; <= 40 buffered bits + <= 3 input bytes; complete over every bit stream, split and flag word)",
       note="the table instance is what init_tree builds for lengths 1..11,12,12 (derived by hand from init_tree's algorithm; init_tree itself is behind an assumed contract)"),
+    H("k_init_tree_clears_tables", "K-inittree", ["C03", "C04", "C18"], cost=30, timeout=900, fns=["init_tree (clearing prologue, count/verdict section, table order)"],
+      strength="B(all-unused code sets of sizes 4/2/19; complete in the starting table)",
+      note="<[i16]>::fill replaced by its std contract model (writes index 0; call count and slice lengths recorded)"),
     H("k_stored_block_end_to_end_raw", "K-stored-e2e", ["C01", "C03", "C06", "C08", "C13"], cost=70, timeout=1200,
       fns=["decompress", "decompress_with_limit (whole automaton on a final stored block)"],
       strength="B(4 concrete stream shapes: final stored block of 0/1/2 bytes, 0-2 trailing bytes, flat/ring, padding 00000/11111; data and trailing bytes symbolic)"),
